@@ -98,6 +98,11 @@ Definition min_scalar_type (z : Z) : option ity :=
     if -128 <=? z then Some i8 else if -32768 <=? z then Some i16
     else if -2147483648 <=? z then Some i32 else if -9223372036854775808 <=? z then Some i64 else None.
 
+(* dtype NumPy gives a Python integer in np.full / np.array / np.asarray: int64 when it fits, uint64 for
+   2^63 .. 2^64-1 (beyond: object, outside the model) *)
+Definition np_int_type (z : Z) : ity :=
+  if in_range_wb 64 true z then i64 else u64.
+
 (* ---- typed 1-D integer arrays *)
 Record tarr := mkT { tdt : dty; tv : list Z }.
 
